@@ -397,7 +397,9 @@ func (g *progGen) node(depth int) string {
 		if g.chance(4, "nestedifchanged") {
 			// two argument-less ifchanged tags, one inside the other, each in a loop of its own (lists
 			// with repeated elements): each compares with what IT rendered last time
-			return "{% for oa in " + pick(g.t, "icl1", []string{"items", "nums", "words"}) + " %}{% ifchanged %}<{{ oa }}{% for ob in " + pick(g.t, "icl2", []string{"items", "nums", "words"}) +
+			// (outer elements repeat and differ in length, the inner loop ends on the same text every time)
+			return "{% for oa in " + pick(g.t, "icl1", []string{"items", "nums", "words", `["a", "a", "ccc", "ccc", "b"]`, `["bb", "bb", "c", "dddd", "dddd"]`, `["", "", "xyz"]`}) +
+				" %}{% ifchanged %}<{{ oa }}{% for ob in " + pick(g.t, "icl2", []string{"items", "nums", "words", `["x"]`, `["x", "y"]`, `"q"`}) +
 				" %}{% ifchanged %}{{ ob }}{% endifchanged %}{% endfor %}>{% endifchanged %}{% endfor %}"
 		}
 		s := "{% ifchanged"
